@@ -48,6 +48,11 @@ type caseIn struct {
 	GuardMs    int    `json:"guard_ms,omitempty"`     // a pong sent within timeout +- guard may count either way
 	Traffic    bool   `json:"traffic,omitempty"`      // concurrent upstream chunk traffic
 	BPings     int    `json:"broker_pings,omitempty"` // pings the broker sends on receipt of each client ping
+	// Stall: when the broker receives the first ping it does not answer it also stops READING: from then
+	// on every client write blocks until the link is closed (the ping itself was written and read)
+	Stall bool `json:"stall,omitempty"`
+	// StallAtMs > 0 (probe only, -probe-stall): the broker stops reading at this time, between two pings
+	StallAtMs int `json:"stall_at_ms,omitempty"`
 	// SlowCloseMs > 0: the transport's Close of the first connection takes this long (a close handshake
 	// with a silent peer); recovery must not wait for it
 	SlowCloseMs int `json:"slow_close_ms,omitempty"`
@@ -276,6 +281,9 @@ func runTiming(c *caseIn, r *rng.R) (o obsT) {
 			}
 			d := c.delay(j)
 			if d < 0 {
+				if c.Stall {
+					s.Link.SetStallClientWrites(true)
+				}
 				return
 			}
 			send := func() {
@@ -488,6 +496,12 @@ func runTiming(c *caseIn, r *rng.R) (o obsT) {
 	start := t0
 	mu.Unlock()
 	end := start.Add(time.Duration(c.HorizonMs) * time.Millisecond)
+	if c.StallAtMs > 0 {
+		if s0 := b.WaitSession(0, wd); s0 != nil {
+			tm := time.AfterFunc(time.Until(start.Add(time.Duration(c.StallAtMs)*time.Millisecond)), func() { s0.Link.SetStallClientWrites(true) })
+			defer tm.Stop()
+		}
+	}
 	if c.LinkFailMs > 0 {
 		if s0 := b.WaitSession(0, wd); s0 != nil {
 			tm := time.AfterFunc(time.Until(start.Add(time.Duration(c.LinkFailMs)*time.Millisecond)), func() { s0.Link.Sever(memtr.Loud) })
@@ -972,6 +986,55 @@ func genFloods(slack, early int, add func(*caseIn, string)) {
 	}
 }
 
+// seconds-scale configurations that are not whole seconds: the loop must run on the configured values
+// (1.8 s means 1.8 s), only the announced values are whole seconds
+func genSeconds(slack, early int, thorough bool, r *rng.R, add func(*caseIn, string)) {
+	mk := func(I, TO int, delays []int, rest, horizon int, kind string) {
+		c := &caseIn{Kind: "timing", IntervalMs: I, TimeoutMs: TO, Delays: delays, Rest: rest, SlackMs: slack, EarlyMs: early, HorizonMs: horizon}
+		if horizon == 0 {
+			_, mc := expect(c, 1<<20)
+			c.HorizonMs = mc + slack + 100
+		}
+		add(c, kind)
+	}
+	mk(1000, 1800, nil, 1400, 4500, "seconds-alive")    // every pong after 1.4 s < 1.8 s
+	mk(1500, 1500, nil, 1200, 4000, "seconds-alive")    // 1.2 s < 1.5 s
+	mk(1200, 1000, []int{0, -1}, -1, 0, "seconds-dead") // second ping at 1.2 s, closed at 2.2 s
+	if thorough {
+		for i := 0; i < 8; i++ {
+			I := []int{1000, 1200, 1500, 2000}[r.Intn(4)]
+			TO := []int{1300, 1800, 2500}[r.Intn(3)]
+			if r.Bool() {
+				d := TO - 200 - r.Intn(200)
+				mk(I, TO, nil, d, 3*d+d/2, "seconds-alive")
+			} else {
+				mk(I, TO, []int{r.Intn(300), -1}, -1, 0, "seconds-dead")
+			}
+		}
+	}
+}
+
+// dead and not reading: after k answered pings the broker reads one more ping and then hangs
+// completely: no pong, no further reads (client writes block), transport left open
+func genStall(slack, early int, r *rng.R, add func(*caseIn, string)) {
+	for _, p := range [][2]int{{40, 20}, {40, 60}, {80, 20}, {80, 60}, {150, 60}, {40, 120}} {
+		for k := 0; k <= 2; k++ {
+			c := &caseIn{Kind: "timing", IntervalMs: p[0], TimeoutMs: p[1], SlackMs: slack, EarlyMs: early, Rest: -1, Stall: true,
+				Traffic: k == 2 && p[0] == 80}
+			for i := 0; i < k; i++ {
+				c.Delays = append(c.Delays, frac(p[1], []int{0, 5}[r.Intn(2)]))
+			}
+			c.Delays = append(c.Delays, -1)
+			if k == 1 {
+				c.SlowCloseMs = 300
+			}
+			_, mc := expect(c, 1<<20)
+			c.HorizonMs = mc + slack + 100
+			add(c, "dead-stall")
+		}
+	}
+}
+
 // alive with late answers to abandoned requests: the caller of a request gives up after 30-50 ms,
 // the broker answers it after 150 ms; pings are answered at once; the connection must stay
 func genLateAnswers(slack, early int, add func(*caseIn, string)) {
@@ -1025,6 +1088,7 @@ func main() {
 	slack := flag.Int("slack", 150, "allowed lateness of the real clock, ms")
 	early := flag.Int("early", 15, "allowed earliness, ms")
 	retrycap := flag.Int("retrycap", 60, "re-run at most this many missing cases")
+	probeStall := flag.Bool("probe-stall", false, "add the probe case: the peer stops reading BETWEEN two pings (the ping write itself blocks)")
 	guard := flag.Int("guard", 4, "a pong sent within timeout +- guard ms may count as in time or late")
 	flag.Parse()
 	broker.New(nil).Release() // registers the plain memtr dialer (once) before ours
@@ -1062,6 +1126,12 @@ func main() {
 		ndead, nalive, nloud, nann := 240, 110, 60, 40
 		if *tier == "thorough" {
 			ndead, nalive, nloud, nann = 2400, 1100, 600, 400
+		}
+		genSeconds(*slack, *early, *tier == "thorough", r.Fork(), add) // first: they take seconds, the rest runs beside them
+		genStall(*slack, *early, r.Fork(), add)
+		if *probeStall {
+			add(&caseIn{Kind: "timing", IntervalMs: 80, TimeoutMs: 60, Delays: []int{0, 0}, Rest: 0, SlackMs: *slack, EarlyMs: *early,
+				StallAtMs: 120, HorizonMs: 160 + 60 + *slack + 100}, "probe-stall-before-ping")
 		}
 		// every (interval, timeout, k, last-delay class) once, then random ones
 		gridPairs := [][2]int{{40, 120}, {50, 150}} // timeout > interval too
@@ -1192,7 +1262,7 @@ func main() {
 			"announced": []uint64{o.annI, o.annT}, "attempts": o.attempts, "request_after_flood_ok": o.reqOK, "recovered": o.recovered, "late_requests_not_abandoned": o.lateErrs, "observed_window_ms": o.horizon}
 		w.Add(coqfmt.Case{Term: term(j.c, o), Input: j.c, Observed: obs, Seed: j.seed, Nontrivial: nt, Kind: j.kind, Direct: o.direct})
 	}
-	rule := "timing: interval {40,80,150} ms x timeout {20,60} ms plus timeout > interval pairs (40,120) (50,150) (and (40,200) (80,200) in alive-slow: every pong of 4-6 or of all pings after 0.6/0.75/0.9 x timeout, longer than the interval, so that pings leave back to back on buffered ticks - the client must stay); the broker answers k=0..5 pings after 0/0.5x/0.9x timeout and then stops or answers after 1.5x timeout (dead), or keeps answering in time (alive), or answers in time while the link dies loudly between two pings or while a pong is under way (loud); inbound flood: the broker sends 1030/1100/2100 (chunks and metadata also 3300) request calls / reply calls / downstream chunks / downstream metadata / upstream chunk acks that the application never consumes (or consumes slowly) while answering every ping at once - the connection must stay for 3 intervals + timeout after the flood and an ordinary request must then succeed; a quarter of the dead and half of the grid-dead cases over a transport whose Close takes 300 ms / 1 s (recovery = disconnected event and second ConnectRequest must come within the bound all the same); alive-late-answers: 1/2/4 application requests (metadata, upstream open) abandoned after 30-50 ms and answered by the broker after 150 ms while every ping is answered at once, then an ordinary request; half with concurrent chunk traffic and an open request, 0-2 broker pings per client ping; grid of every (interval, timeout, k<=3, delay, stop/late) plus random. announce: fixed table (1500 ms, 999 ms, 1 s, 2 h, 0 = default, 2^32 s wrap, 2^24 s - 1 ns) plus random durations. non-trivial = at least two pings reached the broker (timing) / a duration that is not a whole number of seconds (announce); distinct = distinct Coq case terms"
+	rule := "timing: interval {40,80,150} ms x timeout {20,60} ms plus timeout > interval pairs (40,120) (50,150) (and (40,200) (80,200) in alive-slow: every pong of 4-6 or of all pings after 0.6/0.75/0.9 x timeout, longer than the interval, so that pings leave back to back on buffered ticks - the client must stay); the broker answers k=0..5 pings after 0/0.5x/0.9x timeout and then stops or answers after 1.5x timeout (dead), or keeps answering in time (alive), or answers in time while the link dies loudly between two pings or while a pong is under way (loud); inbound flood: the broker sends 1030/1100/2100 (chunks and metadata also 3300) request calls / reply calls / downstream chunks / downstream metadata / upstream chunk acks that the application never consumes (or consumes slowly) while answering every ping at once - the connection must stay for 3 intervals + timeout after the flood and an ordinary request must then succeed; a quarter of the dead and half of the grid-dead cases over a transport whose Close takes 300 ms / 1 s (recovery = disconnected event and second ConnectRequest must come within the bound all the same); dead-stall: after k=0..2 answered pings the broker reads one more ping and then neither answers nor reads (client writes block; transport open) - close, disconnected event and redial within the bound; seconds-alive/seconds-dead: interval/timeout 1 s/1.8 s, 1.5 s/1.5 s with every pong after 1.4 s/1.2 s (stay), 1.2 s/1 s dead after the first pong (configured, untruncated values in the loop); alive-late-answers: 1/2/4 application requests (metadata, upstream open) abandoned after 30-50 ms and answered by the broker after 150 ms while every ping is answered at once, then an ordinary request; half with concurrent chunk traffic and an open request, 0-2 broker pings per client ping; grid of every (interval, timeout, k<=3, delay, stop/late) plus random. announce: fixed table (1500 ms, 999 ms, 1 s, 2 h, 0 = default, 2^32 s wrap, 2^24 s - 1 ns) plus random durations. non-trivial = at least two pings reached the broker (timing) / a duration that is not a whole number of seconds (announce); distinct = distinct Coq case terms"
 	extra := map[string]interface{}{"missed_first_run": missed, "retried": retried, "recovered_on_retry": recovered, "slack_ms": *slack, "early_ms": *early, "guard_ms": *guard, "parallel": *par}
 	if err := w.Flush(*seed, *tier, rule, false, extra); err != nil {
 		fmt.Fprintln(os.Stderr, err)
